@@ -25,6 +25,10 @@ struct Root {
 	7: Inner in
 	8: Alias al
 	9: map<double, string> dm
+	62: i32 a62
+	63: Inner a63
+	64: i32 a64
+	65: list<i32> a65
 	70: list<list<i32>> ll
 	300: map<string, list<Inner>> ml
 }
@@ -118,4 +122,99 @@ func H_C14_digits(ctx int, nfixed int, n int) {
 	} else {
 		zzrt.Cover("rejected")
 	}
+}
+
+
+// ---------------------------------------------------------------------------------------------
+// semantics: queries answer as the path set prescribes
+
+var zzRootIDs = []int16{1, 2, 3, 4, 5, 6, 7, 8, 9, 62, 63, 64, 65, 70, 300}
+
+// H_C14_field: a mask with one or two field paths (free choices among the declared ids,
+// written by id); Field(q) for a FREE q answers as the set prescribes; white and black list.
+func H_C14_field(blackI int) {
+	black := blackI == 1
+	desc := zzDesc()
+	a := zzRootIDs[zzrt.Choose("a", len(zzRootIDs))]
+	b := zzRootIDs[zzrt.Choose("b", len(zzRootIDs))]
+	itoa := func(n int16) string {
+		s := ""
+		for x := int(n); x > 0; x /= 10 {
+			s = string([]byte{'0' + byte(x%10)}) + s
+		}
+		return s
+	}
+	fm, err := Options{BlackListMode: black}.NewFieldMask(desc, "$."+itoa(a), "$."+itoa(b))
+	zzrt.Assert(err == nil && fm != nil, "valid field paths build a mask")
+	q := zzrt.Int16("q")
+	sub, ok := fm.Field(q)
+	in := q == a || q == b
+	if black {
+		zzrt.Assert(ok == !in, "black list: a field is present iff no complete path covers it")
+	} else {
+		zzrt.Assert(ok == in, "white list: a field is present iff a path covers it")
+		if in {
+			zzrt.Assert(sub != nil && sub.All(), "a complete path selects everything below")
+		}
+	}
+	zzrt.Assert(fm.PathInMask(desc, "$."+itoa(a)) == !black, "a path of the set is in the mask (white) / excluded (black)")
+	zzrt.Assert(!fm.All(), "a mask with explicit field paths is not 'all'")
+	if in {
+		zzrt.Cover("in")
+	} else {
+		zzrt.Cover("out")
+	}
+}
+
+// H_C14_index: list indices and int/str map keys written with a free digit / byte; queries with
+// FREE index / key; order and grouping of the paths is a free choice.
+func H_C14_index(blackI int) {
+	black := blackI == 1
+	desc := zzDesc()
+	d1, d2 := zzrt.Byte("d"), zzrt.Byte("d")
+	zzrt.Assume(d1 >= '0' && d1 <= '9' && d2 >= '0' && d2 <= '9')
+	k := zzrt.Byte("k")
+	zzrt.Assume((k >= 'a' && k <= 'z') || (k >= '0' && k <= '9'))
+	s1, s2, ks := string([]byte{d1}), string([]byte{d2}), string([]byte{k})
+	var paths []string
+	switch zzrt.Choose("shape", 3) {
+	case 0:
+		paths = []string{"$.l[" + s1 + "," + s2 + "]", "$.im{" + s1 + "}", "$.sm{\"" + ks + "\"}.a"}
+	case 1:
+		paths = []string{"$.sm{\"" + ks + "\"}.a", "$.l[" + s2 + "]", "$.im{" + s1 + "}", "$.l[" + s1 + "]"}
+	default:
+		paths = []string{"$.im{" + s1 + "}", "$.l[" + s1 + "]", "$.sm{\"" + ks + "\"}.a", "$.l[" + s2 + "]"}
+	}
+	fm, err := Options{BlackListMode: black}.NewFieldMask(desc, paths...)
+	zzrt.Assert(err == nil && fm != nil, "valid paths build a mask")
+	i1, i2 := int(d1-'0'), int(d2-'0')
+	l, okl := fm.Field(3)
+	zzrt.Assert(okl && l != nil, "the list field is (partly) selected / partly excluded")
+	q := zzrt.Int("q")
+	_, okq := l.Int(q)
+	inL := q == i1 || q == i2
+	zzrt.Assert(okq == (inL != black), "list index membership")
+	im, okm := fm.Field(6)
+	zzrt.Assert(okm && im != nil, "the int map field")
+	_, okk := im.Int(q)
+	zzrt.Assert(okk == ((q == i1) != black), "int key membership")
+	sm, oks := fm.Field(5)
+	zzrt.Assert(oks && sm != nil, "the string map field")
+	qs := zzrt.String("qs", 1)
+	ssub, okstr := sm.Str(qs)
+	if black {
+		// the path goes on below the key: the key itself stays present in black list mode
+		zzrt.Assert(okstr, "black list: a key with only a partial path below it is present")
+	} else {
+		zzrt.Assert(okstr == (qs == ks), "string key membership")
+	}
+	if qs == ks {
+		_, oka := ssub.Field(1)
+		_, okb := ssub.Field(2)
+		zzrt.Assert(oka == !black && okb == black, "sub-mask below a string key")
+		zzrt.Cover("key")
+	}
+	_, okx := fm.Field(1)
+	zzrt.Assert(okx == black, "a field no path mentions")
+	zzrt.Cover("end")
 }
